@@ -409,3 +409,54 @@ def register(R):
     cgt.params = dict(filename=Str)
     cgt.props, cgt.setup, cgt.ensures, cgt.raises = ('C06', 'C19', 'C20'), gtf_setup, gtf_post, {}
     cgt.replay = dict(module=UT, cls='OSUtils', func='get_temp_filename', oracle='get_temp_filename')
+
+    # ------------------------------------------------------------------ SubmissionTask._wait_for_all_submitted_futures_to_complete
+    # (C04 / C05 / C03: on a failed submission the cleanups -- abort of the multipart upload, removal of the temp file -- and the
+    #  done callbacks must not run while a task of the transfer is still running.)  The set of associated futures is read under
+    #  its lock; what comes back is an arbitrary set (other threads add and remove): an opaque value whose emptiness and equality
+    #  with another such value are undetermined.
+    SUBT = f'{T}:SubmissionTask'
+    R.symbolic_truth_kinds = set(getattr(R, 'symbolic_truth_kinds', ())) | {'future_set'}
+    R.contract(f'{TC}.associated_futures', params={}, returns=ExtT('future_set'), self_type=ObjT(TC, shared=True))
+
+    def reads_of(evs):
+        return [e for e in evs if e.kind == 'call' and e.name.endswith('TransferCoordinator.associated_futures')]
+
+    def waits_of(evs):
+        return [e for e in evs if e.kind == 'call' and e.name.endswith('Task._wait_until_all_complete')]
+
+    def wfa_iteration(l0, l1, evs):
+        rd, wt = reads_of(evs), waits_of(evs)
+        okk = len(wt) == 1 and len(rd) == 1 and wt[0].extra['env']['futures'] is l0.st.env.get('submitted_futures') \
+            and index_of(evs, wt[0]) < index_of(evs, rd[0]) and l1.st.env.get('submitted_futures') is rd[0].result
+        return {'waits_for_the_set_it_holds_then_rereads_and_continues_with_the_new_set': (B(bool(okk)), ['C04', 'C05', 'C03', 'C08'])}
+
+    def wfa_checks(c):
+        tr = c.trace
+        li = [i for i, e in enumerate(tr) if e.kind == 'loop']
+        out = {'one_loop': (B(len(li) == 1), ['C04', 'C05'])}
+        if len(li) != 1:
+            return out
+        before, after = tr[:li[0]], tr[li[0] + 1:]
+        env = c.new.st.env
+        out['starts_from_the_futures_associated_at_entry'] = (B(
+            len(reads_of(before)) == 1 and not waits_of(before)), ['C04', 'C05'])
+        rd, wt = reads_of(after), waits_of(after)
+        if not after:
+            # left through the loop condition: the set it holds (the latest one read) is empty
+            out['returns_only_when_no_future_is_associated_or_the_waited_set_was_still_the_whole_set'] = (
+                z3.Not(c.engine.truthy(env['submitted_futures'], c.new.st)), ['C04', 'C05', 'C03', 'C08'])
+        else:
+            # left through `break`: it waited for the set it held, read again, and the two sets are equal
+            okk = len(wt) == 1 and len(rd) == 1 and wt[0].extra['env']['futures'] is env.get('submitted_futures') \
+                and rd[0].result is env.get('possibly_more_submitted_futures') and index_of(after, wt[0]) < index_of(after, rd[0])
+            from pyvc.values import to_z3_bool
+            out['returns_only_when_no_future_is_associated_or_the_waited_set_was_still_the_whole_set'] = (
+                z3.And(B(bool(okk)), to_z3_bool(c.engine.value_eq(env['submitted_futures'], env['possibly_more_submitted_futures'], c.new.st)))
+                if okk else B(False), ['C04', 'C05', 'C03', 'C08'])
+        return out
+
+    cw = R.contracts[f'{SUBT}._wait_for_all_submitted_futures_to_complete']
+    cw.props, cw.checks, cw.raises = ('C04', 'C05', 'C03', 'C08'), wfa_checks, {}
+    cw.loops = {0: LoopSpec(invariant=lambda l: {}, iteration_checks=wfa_iteration,
+                            local_types={'submitted_futures': ExtT('future_set'), 'possibly_more_submitted_futures': ExtT('future_set')})}
